@@ -495,7 +495,9 @@ func (s *Server) pushReq(ctx context.Context, wantID bool, method string, params
 		if err != nil {
 			return nil, err
 		}
-		if fb := firstByte(v); fb != '[' && fb != '{' && !isNull(v) {
+		if isNull(v) {
+			v = nil // a null value means no parameters; omit the member
+		} else if fb := firstByte(v); fb != '[' && fb != '{' {
 			return nil, &Error{Code: InvalidRequest, Message: "invalid parameters: array or object required"}
 		}
 		bits = v
